@@ -24,10 +24,61 @@ from .hist import TOOL, note_as_sets
 
 GEN_FILES = ["GenProfile", "GenInternalGit"]
 DRIVERS = ["profile"]
-THEOREMS = []          # filled below
-CLAIM = {}
-TRUSTED_BASE = []
-ASSUMPTIONS = []
+THEOREMS = ["C12_strip_safe", "C12_pins_present", "C12_profile_pins", "C12_config_independent", "C12_drop_complete",
+            "C12_nodash_tame", "C12_algorithm_override_refuted", "C12_split_value_override_refuted",
+            "C12_pin_shadowed_refuted", "C12_profile_pins_all_args_refuted", "C12_inventory_pinned",
+            "C12_global_args_normalised", "C12_global_mix_refuted", "C12_no_pager", "C12_hooks_prefix_keeps_subcommand",
+            "C12_ex_canonical_patch", "C12_ex_config_matters_unpinned", "C12_ex_pinned", "C12_ex_hyps"]
+CLAIM = {
+    "text": "Partial proof. Machine-checked (Coq 8.16.1, closed) over an executable Gallina model of "
+            "first_git_subcommand_index, strip_profile_conflicts, profile_options, args_with_internal_git_profile, "
+            "args_with_disabled_hooks_if_needed, global_args_for_exec and find_repository's global-arg normalisation, "
+            "plus a trusted table of git 2.39's diff options / configuration keys (effective_fmt: last matching option, "
+            "else the configuration key, else git's default): for EVERY configuration and EVERY argument vector in which no "
+            "pinned option occurs outside the option region and every option the strip leaves in place is tame, every format "
+            "component the profile pins has its canonical value (C12_profile_pins, C12_config_independent); the strip removes "
+            "nothing after `--`, nothing for General, and the subcommand is found behind value-taking globals (C12_strip_safe); "
+            "every pinned option is present before `--` after the subcommand, once when the caller did not pass it "
+            "(C12_pins_present); the drop list is complete for every pinned component except (PatchParse, algorithm) "
+            "(C12_drop_complete); tokens without a leading dash are tame (C12_nodash_tame). The three hypotheses are necessary "
+            "(C12_*_refuted), so the unrestricted statement is false (C12_profile_pins_all_args_refuted). Every one of the "
+            "internal git invocation templates found by the whole-tree scan that is parsed fixes the components its parser "
+            "needs, up to 8 listed exceptions, each needed (C12_inventory_pinned). Global args are normalised exactly for the "
+            "shapes [] and [-C x] (C12_global_args_normalised, C12_global_mix_refuted). The end-to-end statement (notes and "
+            "blame equal the baseline's under every configuration and context) is decided by the metamorphic oracle on the "
+            "real binary; it fails in four known classes (C12-K1..K4), each with a witness reproduced on the binary.",
+    "design_ref": "DESIGN.md §4 C12",
+    "note": "Trusted: Coq kernel; translators GenProfile/GenInternalGit; ExtrOcamlBasic extraction + driver; harness; the "
+            "git-side option/config table of Model/Profile.v PART 2 (validated differentially against /usr/bin/git on every "
+            "run: observed prefixes, colour, external diff, textconv, relative, inter-hunk merging, renames, context, path "
+            "quoting vs the model's prediction); vlib/gitsim.py + vlib/hist.py.",
+    "technique": "Coq proof over extracted model + translator-regenerated tables and inventory + exhaustive/differential "
+                 "correspondence + git-side table validation + system-level metamorphic oracle",
+}
+TRUSTED_BASE = [
+    "Coq 8.16.1 kernel (coqc); no axioms (Print Assumptions: closed under the global context)",
+    "tools/gen/GenProfile.py (tables AND control skeletons of the profile functions compared with the source text), "
+    "tools/gen/GenInternalGit.py (syntactic whole-tree scan: exec_git* call sites, argv built by push/extend/vec!/helpers; "
+    "both branches of conditionals are merged; raises on shapes it does not understand)",
+    "extraction: ExtrOcamlBasic only (no Extract Constant); OCaml 4.13.1; coq/Extract/d_profile.ml",
+    "harness/src/p_c12.rs + vlib/c12.py (case generation, canonicalisation, independent oracle tables)",
+    "modelled, not verified: git's option and configuration semantics (Model/Profile.v PART 2: opt_table, sep_value_opts, "
+    "cfg_effect, cfg_applies, default_val, git_value_globals), monitored against /usr/bin/git 2.39 on every run",
+    "vlib/gitsim.py, vlib/hist.py (scenario engine, independent note parser)",
+]
+ASSUMPTIONS = [
+    "git is 2.39.x (/usr/bin/git); option spellings are complete (git also accepts unambiguous abbreviations of long "
+    "options such as --no-pref: not modelled, internal callers never use them)",
+    "computed tokens that internal callers place before `--` (revisions, object names, ranges) do not start with a dash",
+    "NOT pinned by the profiles, handled elsewhere: core.quotePath for patch headers (the unquoting parser, "
+    "Properties/C01_fmt.v C01_fmt_quotepath_independent; path lists are read with -z: nul_paths_ok); number of context "
+    "lines and rename detection for PatchParse (literal -U0 / --no-renames in each template: C12_inventory_pinned); the "
+    "pager (global --no-pager: C12_no_pager; output is captured through a pipe); GIT_EXTERNAL_DIFF / GIT_DIFF_OPTS are "
+    "removed from the environment of every internal git (gen_env_removed)",
+    "configuration that changes CONTENT rather than presentation is out of scope: core.autocrlf/eol/safecrlf, "
+    "core.bigFileThreshold, binary/-diff attributes, blame.ignoreRevsFile, core.hooksPath, aliases (C18)",
+    "configuration keys are compared in git's canonical lower-case form",
+]
 
 # ------------------------------------------------------------------ settings
 # name -> dict(cfg=[(section, key, value)], env={...}, files=..., weight)
@@ -340,3 +391,670 @@ def scenario(args):
         finally:
             shutil.rmtree(sim.base, ignore_errors=True)
     return out
+
+
+# ====================================================================== in-process part
+PROFILE_NAMES = ["General", "PatchParse", "NumstatParse", "RawDiffParse"]
+G_ALPHA = ["-C", "/w", "-c", "k=v", "--git-dir", "--git-dir=/x", "--no-pager", "--namespace"]
+SUBS = ["diff", "show"]
+O_ALPHA = ["--", "--color=always", "--color", "--no-color", "--ext-diff", "--no-ext-diff", "--textconv", "--no-textconv",
+           "--src-prefix=x/", "--src-prefix=a/", "--src-prefix", "--dst-prefix", "--dst-prefix=y/", "--no-prefix",
+           "-M", "-M50%", "-C5", "--find-renames=50%", "--find-copies-harder", "--no-renames",
+           "--relative", "--relative=sub", "--no-relative", "--diff-algorithm=patience", "--patience",
+           "--no-indent-heuristic", "--indent-heuristic", "--inter-hunk-context=3", "--inter-hunk-context",
+           "-U0", "HEAD", "f.txt", "x/"]
+# the oracle's own tables (git 2.39 documentation; deliberately not taken from Gen/GenProfile.v)
+O_VALUE_GLOBALS = {"-C", "-c", "--git-dir", "--work-tree", "--namespace", "--super-prefix", "--config-env"}
+O_REQUIRED = {
+    1: ["--no-ext-diff", "--no-textconv", "--no-color", "--no-relative", "--src-prefix=a/", "--dst-prefix=b/",
+        "--inter-hunk-context=0"],
+    2: ["--no-ext-diff", "--no-textconv", "--no-color", "--no-relative", "--no-renames"],
+    3: ["--no-ext-diff", "--no-textconv", "--no-color", "--no-relative"],
+}
+
+
+def o_override(p, t):
+    """tokens that must not survive before `--` (they would override a neutralising option)"""
+    common = t in ("--ext-diff", "--textconv", "--relative", "--color") or t.startswith("--relative=") or t.startswith("--color=")
+    if p == 1:
+        return common or t in ("--no-prefix", "--src-prefix", "--dst-prefix") or \
+            (t.startswith("--src-prefix=") and t != "--src-prefix=a/") or (t.startswith("--dst-prefix=") and t != "--dst-prefix=b/") \
+            or (t.startswith("--inter-hunk-context=") and t != "--inter-hunk-context=0") or t == "--no-indent-heuristic"
+    if p == 2:
+        return common or t.startswith("-M") or t.startswith("-C") or t.startswith("--find-renames") or t.startswith("--find-copies")
+    if p == 3:
+        return common
+    return False
+
+
+def o_find_sub(a):
+    i = 0
+    while i < len(a):
+        if not a[i].startswith("-"):
+            return i
+        i += 2 if a[i] in O_VALUE_GLOBALS else 1
+    return None
+
+
+def split_dd(r):
+    if "--" in r:
+        k = r.index("--")
+        return r[:k], r[k:]
+    return r, []
+
+
+def is_subseq(xs, ys):
+    it = iter(ys)
+    return all(any(x == y for y in it) for x in xs)
+
+
+def oracle_rewrite(p, a, awp, pins):
+    """independent statement of what the rewriting must achieve; -> (ok, why, shadowed)"""
+    i = o_find_sub(a)
+    if p == 0 or i is None:
+        return (awp == a, "General / no subcommand: the vector must be unchanged", False)
+    g, s, r = a[:i], a[i], a[i + 1:]
+    if awp[:i + 1] != g + [s]:
+        return (False, "global args or subcommand changed", False)
+    t2 = awp[i + 1:]
+    b, d = split_dd(r)
+    b2, d2 = split_dd(t2)
+    if d2 != d:
+        return (False, "tokens from `--` on changed", False)
+    inserted = [t for t in b2 if t in pins]
+    kept = [t for t in b2 if t not in pins]
+    if not is_subseq(kept, b):
+        return (False, "a token was invented or reordered before `--`", False)
+    bad = [t for t in b2 if o_override(p, t)]
+    if bad:
+        return (False, f"overriding option(s) {bad} survive", False)
+    shadowed = False
+    for o in O_REQUIRED[p]:
+        if o not in b2:
+            if o in g or o in d:
+                shadowed = True            # known class C12-K2 at the argv level
+            else:
+                return (False, f"neutralising option {o} is missing before `--`", False)
+    return (True, "", shadowed)
+
+
+def enc(v):
+    return C.sx([C.cps(t) for t in v])
+
+
+def dec_list(x):
+    return [C.uncps(t) for t in x]
+
+
+def fields(line):
+    return {x[0]: x[1] for x in C.sx_parse_many(line) if isinstance(x, list) and len(x) == 2 and isinstance(x[0], str)}
+
+
+def gen_vectors(r, tier):
+    """[(kind, vector)]: exhaustive short vectors + structured random longer ones"""
+    out = []
+    alpha = G_ALPHA[:6] + SUBS + O_ALPHA
+    small = ["-C", "/w", "-c", "--no-pager", "diff", "--", "--color=always", "--ext-diff", "--src-prefix", "--src-prefix=x/",
+             "--no-prefix", "-M", "--relative", "--no-color", "--no-ext-diff", "x/", "--inter-hunk-context"]
+    import itertools
+    for n in range(0, 3):
+        for v in itertools.product(alpha, repeat=n):
+            out.append(("exh<=2", list(v)))
+    for v in itertools.product(small, repeat=3):
+        out.append(("exh3-small", list(v)))
+    if tier != "quick":
+        for v in itertools.product(small, repeat=4):
+            out.append(("exh4-small", list(v)))
+    # tails of length <= 3 after `diff` behind typical global prefixes
+    prefixes = [["-C", "/w", "--no-pager"], ["-c", "core.hooksPath=/dev/null", "-C", "/w", "--no-pager"]]
+    talpha = O_ALPHA if tier != "quick" else [t for t in O_ALPHA if t not in ("--src-prefix=a/", "-M50%", "-C5", "--indent-heuristic",
+                                                                                 "--relative=sub", "--find-copies-harder", "--no-textconv",
+                                                                                 "--dst-prefix=y/", "--patience", "f.txt")]
+    for pre in prefixes[: (1 if tier == "quick" else 2)]:
+        for n in range(0, 4):
+            for v in itertools.product(talpha, repeat=n):
+                out.append(("tail<=3", pre + ["diff"] + list(v)))
+    n_rand = 6000 if tier == "quick" else 120000
+    for _ in range(n_rand):
+        g = []
+        for _ in range(r.below(4)):
+            t = r.pick(G_ALPHA)
+            g.append(t)
+            if t in O_VALUE_GLOBALS and r.chance(9, 10):
+                g.append(r.pick(["/w", "k=v", "diff", "--no-color", "-x"]))
+        v = g + ([r.pick(SUBS)] if r.chance(9, 10) else []) + [r.pick(O_ALPHA) for _ in range(r.below(9))]
+        out.append(("random", v))
+    return out
+
+
+def inprocess(ctx, obligations, violations, known_seen, cov):
+    r = ctx.rng.fork("inproc")
+    vecs = gen_vectors(r, ctx.tier)
+    pins = {}
+    pin_impl = C.run_cases(C.VHARNESS, "c12-pins", [(str(p), str(p)) for p in range(4)], shards=1)
+    for p in range(4):
+        pins[p] = dec_list(C.sx_parse_many(pin_impl[str(p)])[0])
+    if ctx.model_ok:
+        pin_model = C.run_cases(C.driver_path("profile"), "c12-pins", [(str(p), str(p)) for p in range(4)], shards=1)
+        same = all(pin_model.get(str(p)) == pin_impl.get(str(p)) for p in range(4))
+        obligations.append(("tie:profile_options model = implementation", same, "" if same else str(pin_model)))
+    cases = []
+    for k, (kind, v) in enumerate(vecs):
+        for p in ((1, 2, 3) if kind != "random" else (0, 1, 2, 3)):
+            if kind in ("exh3-small", "exh4-small", "tail<=3") and p != 1 + (k % 3):
+                continue                         # one profile per vector for the big families
+            cases.append((f"{k}p{p}", p, v, kind))
+    body = [(i, f"{p} {enc(v)}") for i, p, v, _ in cases]
+    impl = C.run_cases(C.VHARNESS, "c12-profile", body)
+    model = C.run_cases(C.driver_path("profile"), "c12-profile", body) if ctx.model_ok else {}
+    mism, n_shadow, n_changed, kinds = [], 0, 0, {}
+    distinct = set()
+    hyp_cases = []
+    for i, p, v, kind in cases:
+        a = impl.get(i)
+        kinds[kind] = kinds.get(kind, 0) + 1
+        if a is None or a == "panic":
+            violations.append((f"args_with_internal_git_profile panicked / harness died on {PROFILE_NAMES[p]} {v}",
+                               {"kind": "argv", "profile": PROFILE_NAMES[p], "argv": v, "impl": a}))
+            continue
+        if ctx.model_ok and model.get(i) != a:
+            mism.append(f"{PROFILE_NAMES[p]} {v}: impl {a[:160]} model {(model.get(i) or '')[:160]}")
+        f = fields(a)
+        awp = dec_list(f["awp"])
+        if awp != v:
+            n_changed += 1
+            distinct.add((p, tuple(v)))
+        ok, why, shadowed = oracle_rewrite(p, v, awp, pins[p])
+        if shadowed:
+            n_shadow += 1
+        if not ok:
+            violations.append((f"argv rewriting: {why}: {PROFILE_NAMES[p]} {v} -> {awp}",
+                               {"kind": "argv", "profile": PROFILE_NAMES[p], "argv": v, "result": awp, "why": why}))
+        if len(hyp_cases) < 4000 and p != 0 and kind in ("random", "tail<=3"):
+            hyp_cases.append((i, p, v, awp))
+    obligations.append(("tie:correspondence Model/Profile.v vs first_git_subcommand_index / strip_profile_conflicts / "
+                        "args_with_internal_git_profile", (not mism) and ctx.model_ok,
+                        "; ".join(mism[:3]) if mism else ("" if ctx.model_ok else "model did not build")))
+    if n_shadow:
+        known_seen.add(KNOWN_TEXT["C12-K2"])
+    # exec_git_with_profile's whole pipeline (hook prefix + profile)
+    ecases = [(f"e{k}", f"{d} {p} {enc(v)}") for k, (d, p, v) in enumerate(
+        [(d, p, v) for d in (0, 1) for p in range(4)
+         for v in ([["-C", "/w", "--no-pager", "diff", "-U0", "HEAD"], ["diff"], [], ["-c", "core.hooksPath=/x", "diff", "--color"],
+                    ["-ccore.hooksPath=/x", "diff"], ["--config=core.hooksPath=/x", "show", "--ext-diff"], ["-c"], ["-c", "diff"],
+                    ["-C", "/w", "status", "--porcelain=v2"]]
+                   + [vv for _, vv in vecs[-200:]])])]
+    eimpl = C.run_cases(C.VHARNESS, "c12-effective-args", ecases, shards=2)
+    if ctx.model_ok:
+        emodel = C.run_cases(C.driver_path("profile"), "c12-effective-args", ecases, shards=2)
+        ebad = [f"{b}: impl {eimpl.get(i)} model {emodel.get(i)}" for i, b in ecases if eimpl.get(i) != emodel.get(i)]
+        obligations.append(("tie:correspondence effective_args (hook-disabling prefix + profile) model = implementation",
+                            not ebad, "; ".join(ebad[:2])[:600]))
+    # hypotheses of C12_profile_pins evaluated by the model vs an independent reading of the result
+    if ctx.model_ok and hyp_cases:
+        hm = C.run_cases(C.driver_path("profile"), "c12-hyps", [(i, f"{p} {enc(v)}") for i, p, v, _ in hyp_cases])
+        n_hyp = 0
+        bad = []
+        for i, p, v, awp in hyp_cases:
+            f = fields(hm.get(i, ""))
+            if f.get("found") == 1 and f.get("outside") == 1 and f.get("tame") == 1:
+                n_hyp += 1
+                k = o_find_sub(awp)
+                b2, _ = split_dd(awp[k + 1:])
+                # monitor: under the hypotheses the last colour / prefix / ext-diff option before `--` is the neutral one
+                for fam, neutral in ((("--color", "--no-color"), "--no-color"), (("--ext-diff", "--no-ext-diff"), "--no-ext-diff"),
+                                     (("--textconv", "--no-textconv"), "--no-textconv"), (("--relative", "--no-relative"), "--no-relative")):
+                    last = [t for t in b2 if t in fam or any(t.startswith(x + "=") for x in fam)]
+                    if not last or last[-1] != neutral:
+                        bad.append(f"{PROFILE_NAMES[p]} {v} -> {awp}: last of {fam} is {last[-1:]}")
+        obligations.append(("monitor:under the hypotheses of C12_profile_pins the last option of each pinned family is the "
+                            "neutral one (independent reading of the implementation's argv)", not bad, "; ".join(bad[:2])[:500]))
+        cov["hypothesis_hit_rate"] = {"C12_profile_pins(found, pins not outside, survivors tame)": f"{n_hyp}/{len(hyp_cases)}"}
+    cov["evaluations"] += len(cases) + len(ecases)
+    cov["argv_vectors_changed_by_profile"] = n_changed
+    cov["argv_kinds"] = kinds
+    cov["argv_shadowed_pin_vectors"] = n_shadow
+    cov["samples"].append({"case": "argv", "profile": "PatchParse", "argv": cases[-1][2], "impl": impl.get(cases[-1][0], "")[:300]})
+    return distinct
+
+
+# ====================================================================== git-side table validation
+def strip_ansi(t):
+    import re
+    return re.sub(r"\x1b\[[0-9;]*m", "", t)
+
+
+class GRepo:
+    """a fixed two-commit repository in which every modelled component is observable"""
+
+    def __init__(self, scratch):
+        self.base = os.path.join(scratch, "gtable")
+        self.repo = os.path.join(self.base, "repo")
+        self.home = os.path.join(self.base, "home")
+        os.makedirs(self.repo + "/sub")
+        os.makedirs(self.home)
+        self.garbage = os.path.join(self.base, "garbage.sh")
+        self.upper = os.path.join(self.base, "upper.sh")
+        for pth, body in ((self.garbage, GARBAGE), (self.upper, UPPER)):
+            with open(pth, "w") as f:
+                f.write(body)
+            os.chmod(pth, 0o755)
+        with open(os.path.join(self.base, "attributes"), "w") as f:
+            f.write("* diff=c12drv\n")
+        with open(os.path.join(self.home, ".gitconfig"), "w") as f:
+            f.write("[user]\n\tname = T\n\temail = t@example.com\n[core]\n\tattributesFile = %s\n" % os.path.join(self.base, "attributes"))
+        self.env = {"PATH": os.environ.get("PATH", "/usr/bin:/bin"), "HOME": self.home, "GIT_CONFIG_GLOBAL": os.path.join(self.home, ".gitconfig"),
+                    "GIT_CONFIG_NOSYSTEM": "1", "LC_ALL": "C", "TZ": "UTC", "GIT_AUTHOR_DATE": "1767225600 +0000",
+                    "GIT_COMMITTER_DATE": "1767225600 +0000"}
+
+        def w(p, t):
+            with open(os.path.join(self.repo, p), "w") as f:
+                f.write(t)
+        self.git(["init", "-q", "."])
+        w("a.txt", "".join(f"L{i} lowerword\n" for i in range(1, 9)))
+        w("ren_old.txt", "".join(f"R{i} lowerword stays\n" for i in range(1, 13)))
+        w("sub/s.txt", "s1 lowerword\ns2\ns3\n")
+        w("\u00e9.txt", "e1\ne2\n")
+        self.git(["add", "-A"])
+        self.git(["commit", "-q", "-m", "one"])
+        # (every changed line introduces the text --color, so that `-S --color` selects every file)
+        w("a.txt", "".join((f"L{i} lowerword changed --color\n" if i in (2, 5) else f"L{i} lowerword\n") for i in range(1, 9)))
+        os.rename(os.path.join(self.repo, "ren_old.txt"), os.path.join(self.repo, "ren_new.txt"))
+        w("ren_new.txt", "".join((f"R{i} lowerword moved --color\n" if i == 3 else f"R{i} lowerword stays\n") for i in range(1, 13)))
+        w("sub/s.txt", "s1 lowerword\ns2 lowerword changed --color\ns3\n")
+        w("\u00e9.txt", "e1\ne2 changed --color\n")
+        self.git(["add", "-A"])
+        self.git(["commit", "-q", "-m", "two"])
+
+    def git(self, argv, cwd=None):
+        import subprocess
+        p = subprocess.run(["/usr/bin/git"] + argv, cwd=cwd or self.repo, env=self.env, stdout=subprocess.PIPE, stderr=subprocess.PIPE)
+        return p.returncode, p.stdout.decode("utf-8", "replace"), p.stderr.decode("utf-8", "replace")
+
+
+def observe(out):
+    """format features visible in a patch text"""
+    import re
+    ob = {"color": "\x1b[" in out, "garbage": "GARBAGE" in out}
+    t = strip_ansi(out)
+    ob["upper"] = any(l.startswith("+") and "LOWERWORD" in l for l in t.split("\n"))
+    m = re.search(r"^--- (.*?)(sub/)?s\.txt$", t, re.M)
+    ob["src"] = m.group(1) if m else None
+    ob["s_has_dir"] = bool(m.group(2)) if m else None
+    m = re.search(r"^\+\+\+ (.*?)(sub/)?s\.txt$", t, re.M)
+    ob["dst"] = m.group(1) if m else None
+    ob["a_present"] = bool(re.search(r"^\+\+\+ .*a\.txt$", t, re.M))
+    sec = re.split(r"^diff --git ", t, flags=re.M)
+    a_sec = next((x for x in sec if x.split("\n")[0].rstrip().endswith("a.txt")), None)
+    ob["a_hunks"] = len([l for l in a_sec.split("\n") if l.startswith("@@")]) if a_sec else None
+    ob["a_context"] = any(l.startswith(" ") for l in a_sec.split("\n")[1:]) if a_sec else None
+    ob["rename"] = "rename from" in t
+    ob["quoted"] = "\\303\\251" in t
+    ob["raw_utf8"] = "\u00e9.txt" in t
+    return ob
+
+
+def gtable(ctx, obligations, cov):
+    """model's effective_fmt vs what /usr/bin/git actually prints, over random configurations, user options, profiles"""
+    if not ctx.model_ok:
+        return 0
+    r = ctx.rng.fork("gtable")
+    G = GRepo(ctx.scratch)
+    n = 500 if ctx.tier == "quick" else 6000
+    cfg_alpha = [("diff.noprefix", "true"), ("diff.mnemonicPrefix", "true"), ("color.ui", "always"), ("color.diff", "always"),
+                 ("color.diff", "never"), ("diff.external", G.garbage), ("diff.renames", "copies"), ("diff.renames", "false"),
+                 ("diff.interHunkContext", "3"), ("diff.context", "5"), ("diff.context", "0"), ("diff.relative", "true"),
+                 ("core.quotePath", "false"), ("diff.c12drv.textconv", G.upper), ("diff.c12drv.command", G.garbage),
+                 ("diff.algorithm", "patience"), ("diff.indentHeuristic", "false")]
+    tail_alpha = [["--color=always"], ["--color"], ["--no-color"], ["--ext-diff"], ["--no-ext-diff"], ["--textconv"], ["--no-textconv"],
+                  ["--src-prefix=x/"], ["--src-prefix", "x/"], ["--dst-prefix=y/"], ["--dst-prefix", "--color"], ["--no-prefix"], ["-M"],
+                  ["--no-renames"], ["--relative"], ["--no-relative"], ["--inter-hunk-context=3"], ["--inter-hunk-context", "3"],
+                  ["--patience"], ["--diff-algorithm=histogram"], ["--diff-algorithm", "minimal"], ["-U1"], ["-U0"],
+                  ["-S", "--color"]]
+    cases = []
+    for k in range(n):
+        cfg = [r.pick(cfg_alpha) for _ in range(r.below(5))]
+        tail = [t for _ in range(r.weighted([(3, 0), (3, 1), (3, 2), (1, 3)])) for t in r.pick(tail_alpha)]
+        shape = r.weighted([(5, "patch"), (3, "general"), (1, "show"), (1, "plumbing")])
+        where = r.weighted([(3, "root"), (1, "sub")])
+        g = ["-C", G.repo if where == "root" else os.path.join(G.repo, "sub"), "--no-pager"]
+        for kk, vv in cfg:
+            g += ["-c", f"{kk}={vv}"]
+        if shape == "patch":
+            p, a = 1, g + ["diff", "-U0", "--no-color", "--no-renames"] + tail + ["HEAD~1", "HEAD"]
+        elif shape == "general":
+            p, a = 0, g + ["diff"] + tail + ["HEAD~1", "HEAD"]
+        elif shape == "show":
+            p, a = 0, g + ["show", "--format="] + tail + ["HEAD"]
+        else:
+            p, a = 0, g + ["diff-tree", "-p"] + tail + ["HEAD~1", "HEAD"]
+        cases.append((f"g{k}", p, a, cfg, where, shape))
+    impl = C.run_cases(C.VHARNESS, "c12-profile", [(i, f"{p} {enc(a)}") for i, p, a, *_ in cases], shards=2)
+    argvs = {}
+    for i, p, a, *_ in cases:
+        o = impl.get(i)
+        argvs[i] = dec_list(fields(o)["awp"]) if o and o != "panic" else a
+    eff = C.run_cases(C.driver_path("profile"), "c12-effective", [(i, "() " + enc(argvs[i])) for i, *_ in cases], shards=2)
+    hyp = C.run_cases(C.driver_path("profile"), "c12-hyps", [(i, f"{p} {enc(a)}") for i, p, a, *_ in cases], shards=2)
+    bad, n_run, n_err, n_pinned_ok, per_comp, n_filtered = [], 0, 0, 0, {}, 0
+    base_out = None
+    for i, p, a, cfg, where, shape in cases:
+        argv = argvs[i]
+        rc, out, err = G.git(argv, cwd=G.base)
+        if rc != 0:
+            n_err += 1
+            continue
+        ob = observe(out)
+        if "-S" in argv and not (ob["garbage"] or (ob["a_present"] and ob["src"] is not None and (ob["quoted"] or ob["raw_utf8"]))):
+            n_filtered += 1             # the pickaxe removed files from the output: nothing to observe
+            continue
+        n_run += 1
+        m = {x[0]: (None if x[1] == "none" else C.uncps(x[1][1])) for x in C.sx_parse_many(eff[i])}
+        keys = {k.lower() for k, _ in cfg}
+        # diff.external is read by git_diff_ui_config only (not by the plumbing); diff.<driver>.command by both
+        ext_conf = ("diff.external" in keys and shape != "plumbing") or "diff.c12drv.command" in keys
+        exp_garbage = m["ext_diff"] == "on" and ext_conf
+        checks = [("ext_diff", ob["garbage"], exp_garbage)]
+        if not ob["garbage"] and not exp_garbage:
+            rel = m["relative"] == "on" and where == "sub"
+            checks.append(("color", ob["color"], m["color"] == "always"))
+            checks.append(("textconv", ob["upper"], m["textconv"] == "on" and "diff.c12drv.textconv" in keys))
+            if ob["src"] is not None:
+                for side in ("src", "dst"):
+                    mv = m[side + "_prefix"]
+                    # (two commits are compared: git keeps a/ b/ there; c/ i/ w/ o/ appear with the index / work tree)
+                    okp = (ob[side] in ("a/", "b/", "c/", "i/", "w/", "o/", "1/", "2/")) if mv.startswith("<mnemonic") else (ob[side] == mv)
+                    checks.append((side + "_prefix", okp, True))
+                checks.append(("relative", (not ob["s_has_dir"]) and not ob["a_present"], rel))
+            if not rel and ob["a_hunks"] is not None and m["word_diff"] == "none":
+                ih = m["inter_hunk"]
+                cx = m["context"]
+                if cx.isdigit() and ih.isdigit():
+                    merged = 2 * int(cx) + int(ih) >= 2
+                    checks.append(("inter_hunk/context", ob["a_hunks"], 1 if merged else 2))
+                    checks.append(("context", ob["a_context"], int(cx) > 0 or (merged and int(cx) == 0 and int(ih) >= 2)))
+            if not rel:
+                checks.append(("renames", ob["rename"], m["renames"] in ("renames", "copies")))
+                checks.append(("quote_path", ob["quoted"], m["quote_path"] == "quoted"))
+        for name, got, want in checks:
+            per_comp[name] = per_comp.get(name, 0) + 1
+            if got != want:
+                bad.append(f"{name}: git shows {got!r}, model expects {want!r} for argv {argv[2:]} (model {m})")
+        # the profile's promise itself, observed: with the hypotheses, pinned output is free of configuration effects
+        f = fields(hyp.get(i, ""))
+        if p == 1 and f.get("found") == 1 and f.get("outside") == 1 and f.get("tame") == 1:
+            n_pinned_ok += 1
+            if ob["color"] or ob["garbage"] or ob["upper"] or ob["src"] not in ("a/", None) or ob["dst"] not in ("b/", None) \
+                    or ob["s_has_dir"] is False:
+                bad.append(f"pinned PatchParse invocation shows configuration effects: {ob} for {argv[2:]}")
+    obligations.append(("monitor:git-side table (effective_fmt) agrees with /usr/bin/git on observed prefixes, colour, external "
+                        "diff, textconv, relative, hunk merging, renames, path quoting", not bad, "; ".join(bad[:2])[:900]))
+    cov["git_table_validation"] = {"cases_run": n_run, "git_rejected": n_err, "filtered_by_pickaxe": n_filtered, "checks_per_component": per_comp,
+                                   "pinned_with_hypotheses": n_pinned_ok, "mismatches": len(bad)}
+    cov["evaluations"] += n_run
+    return n_run
+
+
+# ====================================================================== inventory
+def inventory(ctx, obligations, cov):
+    if not ctx.model_ok:
+        return
+    out = C.run([C.driver_path("profile"), "c12-inventory"]).stdout
+    rows, summary, exc = [], None, []
+    for line in out.splitlines():
+        f = line.split("\t")
+        if f[0] == "SUMMARY":
+            summary = f
+        elif f[0] == "EXCEPTION":
+            exc.append({"file": f[1], "fn": f[2], "why": f[3]})
+        elif len(f) >= 8:
+            rows.append({"file": f[0], "fn": f[1], "profile": PROFILE_NAMES[int(f[2])], "parser": int(f[3]), "ok": f[4] == "1",
+                         "exception": f[5] == "1", "globals": f[6] == "1", "argv": f[7]})
+    ok = summary is not None and summary[1:4] == ["1", "1", "1"]
+    obligations.append(("tie:inventory every parsed internal invocation fixes the components its parser needs "
+                        "(C12_inventory_pinned re-evaluated on the regenerated inventory)", ok, str(summary)))
+    kinds = {0: "opaque", 1: "patch", 2: "numstat", 3: "pathlist", 4: "blame", 5: "status", 6: "formatted", 7: "grep"}
+    byk, byp = {}, {}
+    for x in rows:
+        byk[kinds[x["parser"]]] = byk.get(kinds[x["parser"]], 0) + 1
+        byp[x["profile"]] = byp.get(x["profile"], 0) + 1
+    cov["inventory"] = {"invocations": len(rows), "by_parser": byk, "by_profile": byp,
+                        "without_repository_globals": [x["file"] + "::" + x["fn"] + " " + x["argv"] for x in rows if not x["globals"]],
+                        "uncovered_or_excepted": [{"site": x["file"] + "::" + x["fn"], "profile": x["profile"], "argv": x["argv"]}
+                                                  for x in rows if not x["ok"]],
+                        "exceptions": exc,
+                        "parsed_without_profile": [x["file"] + "::" + x["fn"] + " " + x["argv"] for x in rows
+                                                   if x["parser"] in (1, 2, 3, 7) and x["profile"] == "General"]}
+
+
+# ====================================================================== fixed witnesses of the known classes
+def _simple(sim, files, path, new_text):
+    sim.init(files)
+    sim.setup_context({"base": files})
+    sim.checkpoint_human([path])
+    sim.write(path, new_text)
+    sim.checkpoint_ai("s1", [path], tool=TOOL)
+    sim.realgit("add", "-A")
+    rc, _, err = sim.git("commit", "-q", "-m", "w")
+    h = sim.head()
+    n = sim.note(h)
+    return rc, (None if n is None else hist.jsonable(note_as_sets(n))), sim.blame(path)
+
+
+def witness_k1(base):
+    """C12-K1 (F15): `git -c k=v commit` from a subdirectory: the commit gets no attribution"""
+    files = {"f.txt": "l1\nl2\n", "sub/g.txt": "g1\n"}
+    a = CSim(base, "k1a")
+    b = CSim(base, "k1b", context="c_sub")
+    try:
+        ra = _simple(a, files, "f.txt", "l1\nai\nl2\n")
+        rb = _simple(b, files, "f.txt", "l1\nai\nl2\n")
+        return ra != rb, {"baseline": ra, "variant": rb, "context": "git -c c12.x=y commit, started in sub/"}
+    finally:
+        shutil.rmtree(a.base, ignore_errors=True)
+        shutil.rmtree(b.base, ignore_errors=True)
+
+
+def witness_k2(base):
+    """C12-K2: a tracked file named like a pinned option + diff.external"""
+    files = {"f.txt": "l1\n", "--no-ext-diff": "a1\na2\n"}
+    a = CSim(base, "k2a")
+    b = CSim(base, "k2b", settings=["external"])
+    try:
+        ra = _simple(a, files, "--no-ext-diff", "a1\nai\na2\n")
+        rb = _simple(b, files, "--no-ext-diff", "a1\nai\na2\n")
+        return ra != rb, {"baseline": ra, "variant": rb, "setting": "diff.external=<script>", "file": "--no-ext-diff"}
+    finally:
+        shutil.rmtree(a.base, ignore_errors=True)
+        shutil.rmtree(b.base, ignore_errors=True)
+
+
+def witness_k3(base):
+    """C12-K3: status.showUntrackedFiles=no + a file the agent creates"""
+    files = {"f.txt": "l1\n"}
+    a = CSim(base, "k3a")
+    b = CSim(base, "k3b", settings=["status_untracked_no"])
+    try:
+        ra = _simple(a, files, "new.txt", "n1\nn2\n")
+        rb = _simple(b, files, "new.txt", "n1\nn2\n")
+        return ra != rb, {"baseline": ra, "variant": rb, "setting": "status.showUntrackedFiles=no"}
+    finally:
+        shutil.rmtree(a.base, ignore_errors=True)
+        shutil.rmtree(b.base, ignore_errors=True)
+
+
+def witness_k4(base):
+    """C12-K4: cherry-pick (slow path) of a commit that renames a file: diff_tree_to_tree runs `git diff --raw -z`
+    without --no-renames, so the records follow diff.renames"""
+    res = {}
+    for nm, st in (("default", []), ("renames_false", ["renames_false"])):
+        s = CSim(base, "k4" + nm, settings=st)
+        try:
+            body = "".join(f"line {i}\n" for i in range(1, 11))
+            s.init({"old.txt": body, "keep.txt": "k1\n"})
+            s.setup_context({"base": {"old.txt": body}})
+            s.realgit("branch", "feature")
+            s.realgit("checkout", "-q", "feature")
+            s.checkpoint_human(["old.txt"])
+            s.write("old.txt", body + "ai A\nai B\n")
+            s.checkpoint_ai("s1", ["old.txt"], tool=TOOL)
+            s.realgit("add", "-A")
+            s.git("commit", "-q", "-m", "ai edit")
+            c1 = s.head()
+            s.git("mv", "old.txt", "new.txt")
+            s.checkpoint_human(["new.txt"])
+            s.write("new.txt", body + "ai A\nai B\nai C\n")
+            s.checkpoint_ai("s1", ["new.txt"], tool=TOOL)
+            s.realgit("add", "-A")
+            s.git("commit", "-q", "-m", "rename + ai")
+            c2 = s.head()
+            s.realgit("checkout", "-q", "main")
+            s.write("old.txt", "MAIN TOP\n" + body)
+            s.realgit("add", "-A")
+            s.git("commit", "-q", "-m", "main moves")
+            rc, _, _ = s.git("cherry-pick", c1, c2)
+            n = s.note(s.head())
+            res[nm] = (rc, None if n is None else hist.jsonable(note_as_sets(n)), s.blame("new.txt"))
+        finally:
+            shutil.rmtree(s.base, ignore_errors=True)
+    return res["default"] != res["renames_false"], res
+
+
+# ====================================================================== executed-argv monitor
+def argv_monitor(base):
+    """a recording git stand-in (git_path): every diff-family command git-ai actually executes for one history
+    carries --no-pager and the neutralising options"""
+    sim = CSim(base, "mon")
+    try:
+        rec = os.path.join(sim.base, "rec.sh")
+        log = os.path.join(sim.base, "rec.log")
+        with open(rec, "w") as f:
+            f.write('#!/bin/sh\n{ printf \'R\\0\'; for a in "$@"; do printf \'%s\\0\' "$a"; done; printf \'\\n\'; } >> "' + log + '"\n'
+                    'exec /usr/bin/git "$@"\n')
+        os.chmod(rec, 0o755)
+        os.makedirs(os.path.join(sim.home, ".git-ai"), exist_ok=True)
+        with open(os.path.join(sim.home, ".git-ai", "config.json"), "w") as f:
+            f.write('{"git_path": "%s"}' % rec)
+        script = hist.gen_script(C.Rng(7).fork("mon"))
+        run_history(sim, script)
+        lines = [ln.split("\0")[1:-1] for ln in open(log, encoding="utf-8", errors="replace").read().split("\n") if ln.startswith("R\0")]
+        bad, n_diff = [], 0
+        for a in lines:
+            k = o_find_sub(a)
+            if k is None:
+                continue
+            sub, tail = a[k], a[k + 1:]
+            b, _ = split_dd(tail)
+            parsed = (sub == "diff") or (sub == "show" and "--numstat" in b) or (sub == "diff-tree")
+            if not parsed or sub == "diff-tree":
+                continue
+            n_diff += 1
+            if "--no-pager" not in a[:k]:
+                bad.append(f"{a}: no --no-pager")
+            for o in ("--no-ext-diff", "--no-textconv", "--no-color", "--no-relative"):
+                if o not in b:
+                    bad.append(f"{a}: {o} missing")
+        return bad, n_diff, len(lines)
+    finally:
+        shutil.rmtree(sim.base, ignore_errors=True)
+
+
+# ====================================================================== the check
+def run(ctx):
+    quick = ctx.tier == "quick"
+    obligations, violations, known_seen = [], [], set()
+    cov = {"evaluations": 0, "samples": [], "input_distribution": {}}
+
+    distinct = inprocess(ctx, obligations, violations, known_seen, cov)
+    gtable(ctx, obligations, cov)
+    inventory(ctx, obligations, cov)
+
+    bad, n_diff, n_all = argv_monitor(ctx.scratch)
+    obligations.append(("monitor:every diff-family command git-ai executed in a replayed history carries --no-pager and the "
+                        "neutralising options", not bad and n_diff > 0, "; ".join(bad[:2])[:400] or f"{n_diff} of {n_all} git processes"))
+
+    # ---- system-level metamorphic oracle
+    n_hist = 30 if quick else 300
+    items = [(ctx.scratch, ctx.seed, i, None) for i in range(n_hist)]
+    if not quick:
+        # all single settings and all contexts on 6 histories; all pairs of settings on 2 histories
+        singles = [([s], "root", {}) for s in SETTING_NAMES] + [([], c, {}) for c in sorted(CONTEXTS)] + \
+                  [([s], "root", {s: "repo"}) for s in SETTING_NAMES]
+        items += [(ctx.scratch, ctx.seed, 10000 + i, singles) for i in range(6)]
+        import itertools
+        pairs = [([a, b], "root", {}) for a, b in itertools.combinations(SETTING_NAMES, 2)]
+        for i in range(2):
+            for k in range(0, len(pairs), 60):
+                items.append((ctx.scratch, ctx.seed, 20000 + i, pairs[k:k + 60]))
+    res = C.parallel_map(scenario, items)
+    n_var = n_same = n_known_fail = 0
+    set_hist, ctx_hist, kinds = {}, {}, {}
+    hist_distinct = set()
+    for r_ in res:
+        if "error" in r_:
+            violations.append(("engine error: " + r_["error"][-300:], r_))
+            continue
+        for k, v in r_["kinds"].items():
+            kinds[k] = kinds.get(k, 0) + v
+        for v in r_["variants"]:
+            n_var += 1
+            for s in v["settings"]:
+                set_hist[s] = set_hist.get(s, 0) + 1
+            ctx_hist[v["context"]] = ctx_hist.get(v["context"], 0) + 1
+            if any(st[0] != "H" for st in r_["steps"]):
+                hist_distinct.add((str(r_["steps"]), tuple(v["settings"]), v["context"]))
+            if v["same"]:
+                n_same += 1
+                continue
+            if v["known"]:
+                n_known_fail += 1
+                for k in v["known"]:
+                    known_seen.add(KNOWN_TEXT[k])
+                continue
+            violations.append((f"notes/blame differ from the baseline run under settings {v['settings']} in context {v['context']} "
+                               f"after {str(r_['steps'])[:200]}",
+                               {"kind": "metamorphic", "steps": r_["steps"], "settings": v["settings"], "context": v["context"],
+                                "where": v["where"], "first_diff": v.get("first_diff"), "commands": v.get("log")}))
+        if len(cov["samples"]) < 4 and r_["variants"]:
+            v = r_["variants"][0]
+            cov["samples"].append({"case": "metamorphic", "steps": r_["steps"][:6], "settings": v["settings"],
+                                   "context": v["context"], "same_as_baseline": v["same"], "known": v["known"]})
+
+    # ---- fixed witnesses of the known classes
+    for name, fn in (("C12-K1", witness_k1), ("C12-K2", witness_k2), ("C12-K3", witness_k3), ("C12-K4", witness_k4)):
+        still, detail = fn(ctx.scratch)
+        cov.setdefault("witnesses", {})[name] = {"still_fails": still, "detail": str(detail)[:600]}
+        if still:
+            known_seen.add(KNOWN_TEXT[name])
+
+    cov["evaluations"] += n_var + len(res)
+    cov["distinct_nontrivial"] = len(distinct) + len(hist_distinct)
+    cov["rule"] = ("in-process: argument vectors (exhaustive <=2 over a 41-token alphabet, exhaustive 3 over 17 tokens, all tails <=3 "
+                   "behind `-C /w --no-pager diff`, random longer vectors) x profiles; non-trivial = the profile changes the vector; "
+                   "distinct by (profile, vector).  system level: generated histories (vlib/hist.py) x (settings, context) draws; "
+                   "non-trivial = at least one AI edit; distinct by (edit script, settings, context)")
+    cov["input_distribution"] = {"settings": set_hist, "contexts": ctx_hist, "edit_kinds": kinds}
+    cov["metamorphic"] = {"histories": len(res), "variants": n_var, "equal_to_baseline": n_same,
+                          "differences_in_known_classes": n_known_fail}
+    return {
+        "obligations": obligations,
+        "violations": violations,
+        "known_seen": sorted(known_seen),
+        "searched": f"{cov['evaluations']} evaluations: argument vectors through the real profile functions (structural oracle + "
+                    f"model correspondence), {cov.get('git_table_validation', {}).get('cases_run', 0)} real git runs against the "
+                    f"git-side table, {len(res)} histories x {n_var} configuration/context variants on the real binary",
+        "coverage": cov,
+    }
+
+
+KNOWN_TEXT = {
+    "C12-K1": "C12-K1 global args of another shape than [] / [-C x] (e.g. `git -c k=v commit`, `git --no-pager commit`, "
+              "`-C a -C b`, --git-dir/--work-tree) are not normalised: started below the work tree root the commit gets an "
+              "empty note (F15)",
+    "C12-K2": "C12-K2 a tracked file (pathspec) named exactly like a pinned option, e.g. `--no-ext-diff`: the option is "
+              "considered already present and is not inserted, the configured external diff / colour reaches the parser",
+    "C12-K3": "C12-K3 status.showUntrackedFiles=no: files the agent creates are invisible to `git status --porcelain=v2` "
+              "(no --untracked-files option is passed) and get no attribution",
+    "C12-K4": "C12-K4 cherry-pick (slow path) of a commit that renames a file: diff_tree_to_tree runs `git diff --raw -z` "
+              "without --no-renames, the note depends on diff.renames (default true: wrong line numbers; false: correct)",
+}
